@@ -93,6 +93,9 @@ func runC10(p *Prog, r *Report) {
 		}
 		r.End()
 	}
+	if want("C10.2") {
+		ruleGroupResultConsistent(p, r, "C10.2b")
+	}
 	if want("C10.3") {
 		r.Begin("C10.3", "E-ORD", "merge loop: each reply `merged` is counted (merged++) and the request's sync flag is or-ed into the group's", 2)
 		if fn := resolveFn(p, r, "leveldb", "(*DB).writeLocked"); fn != nil {
@@ -119,7 +122,11 @@ func runC10(p *Prog, r *Report) {
 					return false
 				}
 				_, isPhi := b.X.(*ssa.Phi)
-				return isPhi && feedsUnlockMerged(fn, b)
+				isCell := false
+				if u, ok := b.X.(*ssa.UnOp); ok && resolveCell(u.X) != nil {
+					isCell = true
+				}
+				return (isPhi || isCell) && feedsUnlockMerged(fn, b)
 			}
 			ordNeverAfter(p, r, fn, "reply-counted", nil, sel, "receive of a merge request", sendTrue, "writeMergedC <- true", inc, "merged++")
 			// non-blocking: the leader never waits for requests
@@ -213,11 +220,8 @@ func rulePublishAfterInsert(p *Prog, r *Report, rule string) {
 		n := countInstr(fn, addSeq)
 		r.Check(n >= 1, fnName(fn), "publishes", "writeLocked publishes the group's sequence numbers", "no addSeq", p.Pos(fn.Pos()))
 		ordNeverAfter(p, r, fn, "publish-after-insert", nil, addSeq, "db.addSeq", putMem, "batch.putMem", nil, "")
-		okUnlock := andPred(evCall("(*leveldb.DB).unlockWrite"), func(in ssa.Instruction) bool {
-			cc := callCommon(in)
-			return cc != nil && len(cc.Args) == 4 && isNilConst(cc.Args[3])
-		})
-		ordPrecede(p, r, fn, "publish-before-ack", nil, addSeq, "db.addSeq", okUnlock, "unlockWrite(.., nil)")
+		okUnlock, ackDesc := ackPoints(fn)
+		ordPrecede(p, r, fn, "publish-before-ack", nil, addSeq, "db.addSeq", okUnlock, ackDesc)
 		// the published delta is the group's total length
 		checkCallArg(p, r, fn, "delta-is-group-length", "(*leveldb.DB).addSeq", 1, mOriginAny(mCall("leveldb.batchesLen")), "batchesLen(batches)")
 	}
@@ -227,13 +231,44 @@ func rulePublishAfterInsert(p *Prog, r *Report, rule string) {
 // feedsUnlockMerged: value v (merged+1) flows (through phis) into the `merged` argument of an
 // unlockWrite call in fn.
 func feedsUnlockMerged(fn *ssa.Function, v ssa.Value) bool {
-	for _, c := range findCalls(fn, "(*leveldb.DB).unlockWrite") {
-		cc := callCommon(c)
-		if len(cc.Args) >= 3 && mOriginAny(func(x ssa.Value) bool { return x == v })(cc.Args[2]) {
-			return true
+	found := false
+	withAnons(fn, func(f *ssa.Function) {
+		for _, c := range findCalls(f, "(*leveldb.DB).unlockWrite") {
+			cc := callCommon(c)
+			if len(cc.Args) >= 3 && mOriginAny(func(x ssa.Value) bool { return x == v })(cc.Args[2]) {
+				found = true
+			}
+		}
+	})
+	return found
+}
+
+// ackPoints: where the leader acknowledges success — the unlockWrite(.., nil) call sites, or, when
+// the unlock is a deferred epilogue, the success returns.
+func ackPoints(fn *ssa.Function) (InstrPred, string) {
+	okUnlock := andPred(evCall("(*leveldb.DB).unlockWrite"), func(in ssa.Instruction) bool {
+		cc := callCommon(in)
+		return cc != nil && len(cc.Args) == 4 && isNilConst(cc.Args[3])
+	})
+	if countInstr(fn, okUnlock) > 0 {
+		return okUnlock, "unlockWrite(.., nil)"
+	}
+	deferred := false
+	for _, a := range fn.AnonFuncs {
+		if len(findCalls(a, "(*leveldb.DB).unlockWrite")) > 0 {
+			aa := a
+			if countInstr(fn, func(in ssa.Instruction) bool { d, ok := in.(*ssa.Defer); return ok && closureCallee(&d.Call) == aa }) > 0 {
+				deferred = true
+			}
 		}
 	}
-	return false
+	if deferred {
+		return func(in ssa.Instruction) bool {
+			ret, ok := in.(*ssa.Return)
+			return ok && in.Block() != fn.Recover && returnIsSuccess(ret)
+		}, "a success return (unlock deferred)"
+	}
+	return okUnlock, "unlockWrite(.., nil)"
 }
 
 // mSyncFlag: the value is `wo.GetSync() && !o.GetNoSync()` (short-circuit phi).
@@ -246,4 +281,98 @@ func mSyncFlag(v ssa.Value) bool {
 		_, isCall := callValue(u.X, "(*leveldb/opt.Options).GetNoSync")
 		return isCall
 	})(v)
+}
+
+// ruleGroupResultConsistent: the error handed to unlockWrite (which acknowledges every merged
+// writer with it) is the very error the leader returns on that path.
+func ruleGroupResultConsistent(p *Prog, r *Report, rule string) {
+	r.Begin(rule, "E-FLOW", "the group's result is one value: on every exit of writeLocked the error passed to unlockWrite (with which every merged writer is acknowledged) is the error the leader itself returns", 2)
+	defer r.End()
+	fn := resolveFn(p, r, "leveldb", "(*DB).writeLocked")
+	if fn == nil {
+		return
+	}
+	uw := evCall("(*leveldb.DB).unlockWrite")
+	same := func(a, b ssa.Value) bool {
+		if isNilConst(a) && isNilConst(b) {
+			return true
+		}
+		if a == b {
+			return true
+		}
+		// two loads of the same local cell (named result) in the same block, no store in between
+		ua, ok1 := a.(*ssa.UnOp)
+		ub, ok2 := b.(*ssa.UnOp)
+		if ok1 && ok2 && resolveCell(ua.X) != nil && resolveCell(ua.X) == resolveCell(ub.X) {
+			return true
+		}
+		// a load of the cell vs the value just stored into it
+		if ok1 {
+			if testedValue(ua) == b {
+				return true
+			}
+		}
+		if ok2 {
+			if testedValue(ub) == a {
+				return true
+			}
+		}
+		return false
+	}
+	n := 0
+	for _, c := range findCalls(fn, "(*leveldb.DB).unlockWrite") {
+		if _, isDefer := c.(*ssa.Defer); isDefer {
+			continue
+		}
+		n++
+		cc := callCommon(c)
+		e := cc.Args[3]
+		bad := ""
+		instrs(fn, func(_ *ssa.BasicBlock, _ int, in ssa.Instruction) {
+			ret, ok := in.(*ssa.Return)
+			if !ok || bad != "" {
+				return
+			}
+			if findPath([]point{{c.Block(), indexOf(c) + 1}}, nil, uw, func(i2 ssa.Instruction) bool { return i2 == in }) == nil {
+				return
+			}
+			rv := retValue(ret, ret.Results[0])
+			if !same(rv, e) {
+				bad = p.Pos(ret.Pos())
+			}
+		})
+		r.Check(bad == "", fnName(fn), "ack-equals-return@"+branchLabel(c), "merged writers are acknowledged with the error the leader returns", "unlockWrite at "+p.Pos(c.Pos())+" acknowledges with a different value than the return at "+bad+": merged writers are told success while the group failed (or vice versa)", p.Pos(c.Pos()))
+	}
+	// deferred-epilogue form: the closure must read the same result cell the returns read
+	for _, a := range fn.AnonFuncs {
+		for _, c := range findCalls(a, "(*leveldb.DB).unlockWrite") {
+			deferred := countInstr(fn, func(in ssa.Instruction) bool { d, ok := in.(*ssa.Defer); return ok && closureCallee(&d.Call) == a }) > 0
+			if !deferred {
+				continue
+			}
+			n++
+			cc := callCommon(c)
+			var cell *ssa.Alloc
+			if u, ok := cc.Args[3].(*ssa.UnOp); ok {
+				cell = resolveCell(u.X)
+			}
+			bad := ""
+			instrs(fn, func(_ *ssa.BasicBlock, _ int, in ssa.Instruction) {
+				ret, ok := in.(*ssa.Return)
+				if !ok || bad != "" || in.Block() == fn.Recover {
+					return
+				}
+				// the returned value is re-loaded from the result cell after rundefers
+				u, ok := ret.Results[0].(*ssa.UnOp)
+				if !ok || cell == nil || resolveCell(u.X) != cell {
+					bad = p.Pos(ret.Pos())
+				}
+			})
+			r.Check(bad == "", fnName(fn), "deferred-ack-equals-return", "the deferred unlockWrite acknowledges merged writers with the function's own result variable", "the deferred epilogue passes a variable that is not the result returned at "+bad+" (e.g. a shadowed or stale err): merged writers get a different answer than the leader", p.Pos(c.Pos()))
+		}
+	}
+	r.Site(n)
+	if n == 0 {
+		r.Fail(fnName(fn), "unresolved-anchor", "writeLocked calls unlockWrite", "no unlockWrite call (direct or deferred) found", p.Pos(fn.Pos()), nil)
+	}
 }
